@@ -7,7 +7,7 @@ PROPS = {
                      "finds the secret exponents in the logged random reads (verified by g^x = g_x), recomputes g_a^b mod p, the salt and new_nonce_hash1 and checks "
                      "the p_q_inner_data payload (constructor per mode, dc, expires_in, nonces, p<q, p*q=pq). Cases vary mode, dc id (int32 range), key-list position, "
                      "req_pq preludes, forced zero prefixes of nonce/new_nonce/server_nonce, forced leading-zero auth keys, natural RSA_PAD retries (~26%), delivery jitter.",
-                note="Inputs are sampled (seeded). TestServerRNG fixes pq and dh_prime on the server side. Trusted: harness/refmodel/exch_*.go (spec transcription), math/big, "
+                note="Inputs are sampled (seeded). TestServerRNG fixes pq and dh_prime of the in-tree server (not replaceable through public API); the DH prime / generator choice is varied in a second arm where the honest server is the scripted reference server (3 safe primes x admissible g x perm/temp). Trusted: harness/refmodel/exch_*.go (spec transcription), math/big, "
                      "crypto/aes, crypto/sha1, crypto/sha256. Built without -race: both flows are single goroutines joined only by the harness transport, and -race makes one exchange "
                      "cost ~8 s (2048-bit primality checks, pq factoring).",
                 watchdog={"quick": 1200, "thorough": 7200}),
@@ -26,8 +26,8 @@ PROPS = {
                 watchdog={"quick": 1200, "thorough": 7200}),
     "C12": dict(engine="exchmon", race=True, level="fault_enumeration", design="C12",
                 technique="logical deadline monitor at a harness-owned transport.Conn + silent-peer arms confirmed by outcome",
-                text="69 cells enumerated completely: entry point (ClientExchange.Run perm/temp; mtproto.Conn.Run without PFS, with PFS (both exchanges), regeneration after transport -404) x caller "
-                     "context (no deadline, far deadline, near deadline) x silent peer at resPQ / server_DH_params / dh_gen. For every Send/Recv of the client flow the context deadline is recorded: "
+                text="213 cells enumerated completely: entry point (ClientExchange.Run perm/temp; mtproto.Conn.Run without PFS, with PFS (both exchanges), regeneration after transport -404) x caller "
+                     "context (no deadline, far deadline, near deadline) x silent peer at resPQ / server_DH_params / dh_gen, also preceded by 1/2/5 transport -404 frames (skipped and re-read at resPQ) or a -429 frame. For every Send/Recv of the client flow the context deadline is recorded: "
                      "no deadline, or deadline - call time > exchange timeout, refutes. Stalled runs judged bounded must end by themselves with an error; runs judged unbounded are shown still "
                      "pending after 6 exchange timeouts and then released.",
                 note="The fake transport honours exactly the context deadline, like transport.connection (SetRead/WriteDeadline), not cancellation. Dial timeout (6 h) is set far above the exchange "
